@@ -28,6 +28,11 @@ fn check_one(ty: &str, got: &Version, a: u64, b: u64, c: u64, d: Option<u64>, de
         if printed != text {
             return Err(Failure::new("tuple-prints-differently", format!("{} prints {:?}, expected {:?}", ctx(), printed, text)));
         }
+        if (a ^ b ^ c) % 4 == 0 {
+            if let Err(m) = display_survives_failing_writer(got, &text) {
+                return Err(Failure::new("tuple-prints-differently", format!("{}: {}", ctx(), m)));
+            }
+        }
         match Version::parse(&text) {
             Ok(p) => {
                 if fields5(&p) != fields5(got) {
